@@ -36,11 +36,24 @@ def run_one(path):
             props = ["C%02d" % i for i in range(1, 21)]
         msgs = []
         ok = True
+        allout = None
+        if len(props) == 20:
+            ra = subprocess.run([BIN, "-verif", V, "-repo", tmp, "ALL", "dump"], capture_output=True, text=True, env=env)
+            if ra.returncode != 0 and not ra.stdout:
+                return (path, "FAIL", "checker failed: " + ra.stderr[-300:])
+            allout = {}
+            for l in ra.stdout.splitlines():
+                if "\t" in l:
+                    pid, rest = l.split("\t", 1)
+                    allout.setdefault(pid, []).append(rest)
         for prop in props:
-            r = subprocess.run([BIN, "-verif", V, "-repo", tmp, prop, "dump"], capture_output=True, text=True, env=env)
-            open_obs = [l for l in r.stdout.splitlines() if l.startswith(("violated", "undecided"))]
-            if r.returncode != 0 and not r.stdout:
-                return (path, "FAIL", "checker failed: " + r.stderr[-300:])
+            if allout is not None:
+                open_obs = [l for l in allout.get(prop, []) if l.startswith(("violated", "undecided"))]
+            else:
+                r = subprocess.run([BIN, "-verif", V, "-repo", tmp, prop, "dump"], capture_output=True, text=True, env=env)
+                open_obs = [l for l in r.stdout.splitlines() if l.startswith(("violated", "undecided"))]
+                if r.returncode != 0 and not r.stdout:
+                    return (path, "FAIL", "checker failed: " + r.stderr[-300:])
             if kind == "breaking":
                 hit = [l for l in open_obs if l.split()[1] == h["rule"] and h["expect"] in l]
                 if not hit:
